@@ -249,6 +249,9 @@ def gen_fn(g, header_words, block_lines):
     body, _ = rw.rule_R5([Tok(t.kind, t.text, t.ws, t.line) for t in item.body])
     shown = opts.get("as", qual)
     if "closure" in opts or "loopbody" in opts:
+        opts["closure"] = opts["closure"].strip('"') if "closure" in opts else None
+        if opts["closure"] is None:
+            del opts["closure"]
         # lift a closure literal / loop body into a named function; signature comes from the template
         fsig = None
         for kind, args, text in sections:
@@ -260,7 +263,20 @@ def gen_fn(g, header_words, block_lines):
         # named rules first so that macro-wrapped iterators become visible
         body = apply_sections(body, [s for s in pre_rules if s[0] == "rules"], qual, g)
         if "closure" in opts:
-            st, a_lo, a_hi, b_lo, b_hi = rw.nth_closure(body, int(opts["closure"]))
+            cl = opts["closure"]
+            if cl.isdigit():
+                st, a_lo, a_hi, b_lo, b_hi = rw.nth_closure(body, int(cl))
+            else:
+                # closure=<anchor text>: the first closure literal at or after the anchor
+                ms = rw.find_matches(body, cl)
+                if len(ms) != 1:
+                    raise RuleMismatch("%s: closure anchor `%s` matched %d times" % (qual, cl, len(ms)))
+                k = 1
+                while True:
+                    st, a_lo, a_hi, b_lo, b_hi = rw.nth_closure(body, k)
+                    if st >= ms[0][0]:
+                        break
+                    k += 1
             params = emit_trim(body[a_lo:a_hi])
             inner = body[b_lo:b_hi]
             if inner[0].text != "{":
